@@ -1,7 +1,7 @@
 (** Executable entry points of the C05 model (dictionaries).  Values are
     tlb.Uint32 (32 bits inline, printed n<hex>); keys are printed as their bits. *)
 From Coq Require Import List NArith ZArith String Bool.
-From Tongo Require Import Lib.Bits Lib.Res Lib.Sx Spec.Dict Model.Hashmap.
+From Tongo Require Import Lib.Bits Lib.Res Lib.Sx Spec.Dict Model.Hashmap Model.HashmapHist.
 Import ListNotations.
 Local Open Scope string_scope.
 Local Open Scope list_scope.
@@ -206,6 +206,59 @@ Definition run_addr (a : sx) : sx :=
   | _ => sx_err "addr"
   end.
 
+(* c05.hist: (n signed hashmapE build ((key value) ...) (step ...)): a history on
+   dictionary OBJECTS.  build = 'put (Put in that order, object 0) | 'new
+   (NewHashmap(E)(keys, values) with the slices in that order, object 0) | 'new2
+   (two objects 0 and 1 built by NewHashmap(E) from the SAME two slices).
+   step = ('marshal i) -> cell | 'err ; ('items i) -> Items() in slice order ;
+   ('get i k) -> (v) | 'none ; ('put i k v) -> 'ok.  -> (result ...) *)
+Definition obs_sx (o : hobs N) : sx :=
+  match o with
+  | OCell r => sx_res sx_cell r
+  | OItems m => sx_items m
+  | OGet (Some v) => SL [SN v]
+  | OGet None => SA "none"
+  | ODone => SA "ok"
+  end.
+
+Definition hop_sx (a : sx) : option (N * hop N) :=
+  match a with
+  | SL [SA nm; SN i] =>
+      if String.eqb nm "marshal" then Some (i, HMarshal)
+      else if String.eqb nm "items" then Some (i, HItems) else None
+  | SL [SA nm; SN i; SBits k] => if String.eqb nm "get" then Some (i, HGet k) else None
+  | SL [SA nm; SN i; SBits k; SN v] => if String.eqb nm "put" then Some (i, HPut k v) else None
+  | _ => None
+  end.
+
+Fixpoint run_hsteps (sgn e : bool) (n : nat) (m0 m1 : list (bits * N)) (steps : list sx) : list sx :=
+  match steps with
+  | [] => []
+  | s :: t =>
+      match hop_sx s with
+      | Some (i, op) =>
+          if (i =? 0)%N then
+            let '(m0', o) := hstep venc_val (klt_of sgn) e n m0 op in
+            obs_sx o :: run_hsteps sgn e n m0' m1 t
+          else
+            let '(m1', o) := hstep venc_val (klt_of sgn) e n m1 op in
+            obs_sx o :: run_hsteps sgn e n m0 m1' t
+      | None => sx_err "hist step" :: run_hsteps sgn e n m0 m1 t
+      end
+  end.
+
+Definition run_hist (a : sx) : sx :=
+  match a with
+  | SL [SN n; SB sgn; SB e; SA build; SL kvs; SL steps] =>
+      match items_sx kvs with
+      | Some l =>
+          let m := if String.eqb build "put" then puts bits_eqb (klt_of sgn) l [] else l in
+          SL (run_hsteps sgn e (N.to_nat n) m m steps)
+      | None => sx_err "hist items"
+      end
+  | _ => sx_err "hist"
+  end.
+
 Definition run (name : string) (a : sx) : sx :=
   let is x := String.eqb name x in
   if is "c05.encode" then run_encode a
@@ -214,4 +267,5 @@ Definition run (name : string) (a : sx) : sx :=
   else if is "c05.cells" then run_cells a
   else if is "c05.ops" then run_ops a
   else if is "c05.addr" then run_addr a
+  else if is "c05.hist" then run_hist a
   else sx_err "unknown case kind".
